@@ -109,6 +109,7 @@ void harness(void)
 	p->qslp->rangeval = nondet_bool() ? qsv_numarray(NBMAX) : 0;
 	if (p->qslp->rangeval) for (i = 0; i < NBMAX; i++) qsv_setnum(p->qslp->rangeval[i], qsv_nondet_payload());
 	B = mk_qsbasis(bs, br);
+	{ IN_BOOL(has_cache); if (has_cache) { p->cache = qsv_alloc(sizeof *p->cache); mpq_init(p->cache->val); mpq_ILLlp_cache_init(p->cache); } }	/* a stored solution of the last solve */
 	for (i = 0; i < NBMAX; i++) if (i < bs) { char c = B->cstat[i]; if (c == QS_COL_BSTAT_BASIC) nbas++; if (c != QS_COL_BSTAT_LOWER && c != QS_COL_BSTAT_BASIC && c != QS_COL_BSTAT_UPPER && c != QS_COL_BSTAT_FREE) legal = 0; }
 	for (i = 0; i < NBMAX; i++) if (i < br) { char c = B->rstat[i]; if (c == QS_ROW_BSTAT_BASIC) nbas++; if (c != QS_ROW_BSTAT_LOWER && c != QS_ROW_BSTAT_BASIC && c != QS_ROW_BSTAT_UPPER) legal = 0;
 		if (c == QS_ROW_BSTAT_UPPER && br == nrows && p->qslp->sense[i] != 'R') legal = 0; }
@@ -118,6 +119,7 @@ void harness(void)
 		char *ocs = ob ? ob->cstat : 0, *ors = ob ? ob->rstat : 0;
 		int of = p->factorok, ons = ob ? ob->nstruct : 0, onr = ob ? ob->nrows : 0;
 		char c0 = (ob && nstruct > 0) ? ocs[0] : 0;
+		int has_cache_before = p->cache != 0;
 #ifdef FN_QSload_basis
 		rv = mpq_QSload_basis(p, B);
 #else
@@ -126,10 +128,11 @@ void harness(void)
 		ASSERT(rv == 0 || !valid, "C12: a well-formed basis of the right size is accepted");
 		ASSERT(rv != 0 || valid, "C07: a size-mismatched or malformed basis is rejected with a non-zero code");
 		if (rv != 0) {
-			ASSERT(p->basis == ob && p->factorok == of, "C07: a rejected basis leaves the problem's basis pointer and factorization flag untouched");
+			ASSERT(p->basis == ob && p->factorok == of && (p->cache != 0) == has_cache_before, "C07: a rejected basis leaves the problem's basis pointer, factorization flag and stored solution untouched");
 			if (ob) ASSERT(ob->nstruct == ons && ob->nrows == onr && ob->cstat == ocs && ob->rstat == ors && (nstruct == 0 || ocs[0] == c0), "C07: a rejected basis leaves the contents of the problem's basis untouched");
 		} else {
 			ASSERT(p->factorok == 0 && p->basis != 0 && p->basis->nstruct == nstruct && p->basis->nrows == nrows, "C12: an accepted basis becomes the problem's basis and the old factorization is dropped");
+			ASSERT(p->cache == 0, "C05: the stored solution belongs to the basis it was computed with: loading another basis drops it (ILLlib_delrows keeps a stored solution when the deleted rows are basic in the STORED basis)");
 			for (i = 0; i < NBMAX; i++) if (i < nstruct) ASSERT(p->basis->cstat[i] == B->cstat[i], "C12: column statuses stored entry by entry");
 			for (i = 0; i < NBMAX; i++) if (i < nrows) ASSERT(p->basis->rstat[i] == B->rstat[i], "C12: row statuses stored entry by entry");
 		}
